@@ -79,6 +79,55 @@ def view_aliasing(ctx, o3):
                                   {"irreps": [i1, i2, io], "instructions": ins, "instruction": k, "dev": (out0 - exp).abs().max().item()}, True)
             if total != tp.weight_numel:
                 ctx.violation("TensorProduct.weight_numel/views-do-not-cover", {"instructions": ins, "sum_of_views": total, "weight_numel": tp.weight_numel}, True)
+            # ---- EXTERNAL weights in every memory layout: the view (by index and by iteration) must alias the tensor the USER passed —
+            #      editing it edits the user's weights (exactly view.numel() entries per weight row) and that path's contribution only
+            for shared in (True, False):
+                tpe = o3.TensorProduct(i1, i2, io, ins, internal_weights=False, shared_weights=shared)
+                n = tpe.weight_numel
+                if n == 0:
+                    continue
+                rows = 1 if shared else 3
+                layouts = {
+                    "contiguous": lambda: torch.randn(rows, n, generator=g),
+                    "column-block-of-a-larger-buffer": lambda: torch.randn(rows, n + 5, generator=g)[:, 2:2 + n],
+                    "transposed": lambda: torch.randn(n, rows, generator=g).t(),
+                    "every-other-column": lambda: torch.randn(rows, 2 * n, generator=g)[:, ::2],
+                }
+                for lname, mk in layouts.items():
+                    for how in ("by-index", "by-iteration"):
+                        W2 = mk()
+                        W = W2[0] if shared else W2           # shared: a 1-D (possibly strided) row; unshared: (batch, numel)
+                        before = W.detach().clone()
+                        out_before = tpe(x1, x2, W).detach().clone()
+                        kk = wk[len(wk) // 2]
+                        try:
+                            if how == "by-index":
+                                view = tpe.weight_view_for_instruction(kk, W)
+                            else:
+                                view = dict((j, v) for j, _i, v in tpe.weight_views(W, yield_instruction=True))[kk]
+                        except Exception as e:  # noqa: BLE001
+                            ctx.violation("TensorProduct.weight_views/external-weights-raises",
+                                          {"irreps": [i1, i2, io], "instructions": ins, "layout": lname, "how": how, "shared_weights": shared, "error": repr(e)[:300]}, True)
+                            continue
+                        with torch.no_grad():
+                            view.zero_()
+                        changed = int((W != before).sum())
+                        per_row = view.numel() // (1 if shared else rows)
+                        # entries of the slice that were non-zero before (all of them, for a normal sample)
+                        Wz = before.clone().reshape(rows, n)
+                        off = sum(int(torch.tensor(tpe.instructions[j].path_shape).prod()) for j in wk if j < kk)
+                        Wz[:, off:off + per_row] = 0
+                        ctx.case(f"view-aliasing-external {i1} {i2} {io} {lname} {how} shared={shared}")
+                        ok_alias = bool(torch.equal(W.reshape(rows, n), Wz))
+                        out_after = tpe(x1, x2, W).detach()
+                        out_expected = tpe(x1, x2, Wz[0] if shared else Wz).detach()
+                        ok_out = (out_after - out_expected).abs().max().item() <= 1e-12
+                        if not (ok_alias and ok_out):
+                            ctx.violation("TensorProduct.weight_views/external-weights-not-aliased",
+                                          {"irreps": [i1, i2, io], "instructions": ins, "instruction": kk, "layout": lname, "how": how, "shared_weights": shared,
+                                           "entries_of_the_user_tensor_changed": changed, "view_numel": view.numel(),
+                                           "user_tensor_equals_expected_edit": ok_alias, "output_follows_the_edit": bool(ok_out),
+                                           "call": "v = tp.weight_view_for_instruction(k, W) / tp.weight_views(W); v.zero_(); W must now have that slice zeroed"}, True)
     finally:
         torch.set_default_dtype(torch.float32)
 
